@@ -13,7 +13,9 @@ import sys
 import time
 import traceback
 
-from .model import AnchorError, Undecided
+import ast
+
+from .model import AnchorError, LooseEquality, Undecided
 
 VERIF = os.path.dirname(os.path.dirname(os.path.abspath(__file__)))
 
@@ -72,6 +74,11 @@ class Rule:
         """Run an instance evaluation; map engine exceptions to verdicts."""
         try:
             return fn(*args, **kw)
+        except LooseEquality as e:
+            loc = ""
+            if e.node is not None and hasattr(e.node, "lineno"):
+                loc = f"line {e.node.lineno}"
+            self.violation(construct, "loose-equality:" + (ast.unparse(e.node)[:60] if e.node is not None else ""), str(e), loc)
         except Undecided as e:
             loc = ""
             if e.node is not None and hasattr(e.node, "lineno"):
